@@ -59,3 +59,207 @@ Proof.
   cbn [enc lookup String.eqb Ascii.eqb Bool.eqb]; rewrite Hm; reflexivity.
 Qed.
 End Shape.
+
+(* ------------------------------------------------------------------------------------ *)
+(* the full shape theorem: key lookups through the generic struct encoding                *)
+
+Fixpoint field_ty_of (fs : list field) (n : string) : option (bool * ty) :=
+  match fs with
+  | [] => None
+  | Field _ m om ft :: fr =>
+      match ft with
+      | TSkip => field_ty_of fr n
+      | _ => if String.eqb m n then Some (om, ft) else field_ty_of fr n
+      end
+  end.
+
+Lemma field_ty_of_in : forall fs n om ft, field_ty_of fs n = Some (om, ft) -> In n (names fs).
+Proof.
+  induction fs as [|[g m o t] fr IH]; intros n om ft H; [discriminate H|].
+  simpl in H. destruct t; try (simpl; destruct (String.eqb m n) eqn:E;
+    [apply String.eqb_eq in E; left; exact E|right; eapply IH; exact H]).
+  simpl. eapply IH. exact H.
+Qed.
+
+Section Lookup.
+Variable mo : list (string * string) -> list (string * string).
+
+Lemma lookup_field : forall fs vs n, wf_fields fs vs = true -> str_nodup (names fs) = true ->
+  match field_ty_of fs n with
+  | None => lookup n (enc_fields mo fs vs) = None
+  | Some (om, ft) => exists x, wf ft x = true /\
+      lookup n (enc_fields mo fs vs) = if om && is_empty x then None else Some (enc mo ft x)
+  end.
+Proof.
+  induction fs as [|[g m om ft] fr IH]; intros vs n Hw Hnd.
+  - destruct vs; reflexivity.
+  - destruct vs as [|x vr]; [discriminate Hw|].
+    simpl in Hw. rewrite andb_true_iff in Hw. destruct Hw as [Hx Hr].
+    destruct (match ft with TSkip => true | _ => false end) eqn:Eskip.
+    + destruct ft; try discriminate Eskip. simpl in Hnd |- *. apply IH; assumption.
+    + assert (Hnames : names (Field g m om ft :: fr) = m :: names fr) by (destruct ft; try reflexivity; discriminate Eskip).
+      rewrite Hnames in Hnd. simpl in Hnd. rewrite andb_true_iff, negb_true_iff in Hnd.
+      destruct Hnd as [Hm Hnd]. apply existsb_str_false in Hm.
+      assert (Henc : enc_fields mo (Field g m om ft :: fr) (x :: vr) =
+                     if om && is_empty x then enc_fields mo fr vr else (m, enc mo ft x) :: enc_fields mo fr vr)
+        by (destruct ft; try reflexivity; discriminate Eskip).
+      assert (Hfty : field_ty_of (Field g m om ft :: fr) n =
+                     if String.eqb m n then Some (om, ft) else field_ty_of fr n)
+        by (destruct ft; try reflexivity; discriminate Eskip).
+      rewrite Henc, Hfty. specialize (IH vr n Hr Hnd).
+      destruct (String.eqb m n) eqn:E.
+      * apply String.eqb_eq in E. subst m. exists x. split; [exact Hx|].
+        assert (Hrest : lookup n (enc_fields mo fr vr) = None).
+        { apply lookup_notin. intro HI. apply Hm. eapply keys_enc_fields. exact HI. }
+        destruct (om && is_empty x); [exact Hrest|].
+        cbn [lookup]. rewrite Hrest, str_eqb_refl. reflexivity.
+      * destruct (om && is_empty x).
+        -- exact IH.
+        -- destruct (field_ty_of fr n) as [[om' ft']|].
+           ++ destruct IH as [x' [Hx' IH]]. exists x'. split; [exact Hx'|].
+              cbn [lookup]. rewrite IH. destruct (om' && is_empty x'); [rewrite E|]; reflexivity.
+           ++ cbn [lookup]. rewrite IH, E. reflexivity.
+Qed.
+
+(* schema conditions for the shape (decidable; computed on the generated schemas) *)
+Definition opt_field_is (fs : list field) (n : string) (p : ty -> bool) : bool :=
+  match field_ty_of fs n with None => true | Some (_, t) => p t end.
+Definition req_field_is (fs : list field) (n : string) (p : ty -> bool) : bool :=
+  match field_ty_of fs n with Some (false, t) => p t | _ => false end.
+Definition is_TTags (t : ty) := match t with TTags => true | _ => false end.
+Definition is_TWayNodes (t : ty) := match t with TWayNodes _ => true | _ => false end.
+Definition is_TStr (t : ty) := match t with TStr => true | _ => false end.
+Definition is_TInt (t : ty) := match t with TInt _ _ => true | _ => false end.
+Definition member_schema_ok (mfs : list field) : bool :=
+  str_nodup (names mfs) && req_field_is mfs "type" is_TStr && req_field_is mfs "ref" is_TInt
+  && req_field_is mfs "role" is_TStr && opt_field_is mfs "nodes" is_TWayNodes.
+Definition is_members (t : ty) :=
+  match t with TMembers (TStruct mfs) => member_schema_ok mfs | _ => false end.
+Definition elem_schema_ok (nm : string) (fs : list field) : bool :=
+  str_nodup (names fs)
+  && req_field_is fs "type" (fun t => match t with TShim n => String.eqb n nm | _ => false end)
+  && mem_str nm osmjson_types
+  && opt_field_is fs "tags" is_TTags
+  && (if String.eqb nm "way" then req_field_is fs "nodes" is_TWayNodes else true)
+  && (if String.eqb nm "relation" then req_field_is fs "members" is_members else true).
+
+Lemma req_lookup : forall fs vs n p, wf_fields fs vs = true -> str_nodup (names fs) = true ->
+  req_field_is fs n p = true ->
+  exists t x, p t = true /\ wf t x = true /\ lookup n (enc_fields mo fs vs) = Some (enc mo t x).
+Proof.
+  intros fs vs n p Hw Hnd H. unfold req_field_is in H. pose proof (lookup_field fs vs n Hw Hnd) as L.
+  destruct (field_ty_of fs n) as [[om t]|]; [|discriminate H]. destruct om; [discriminate H|].
+  destruct L as [x [Hx L]]. exists t, x. repeat split; assumption.
+Qed.
+
+Lemma opt_lookup : forall fs vs n p, wf_fields fs vs = true -> str_nodup (names fs) = true ->
+  opt_field_is fs n p = true ->
+  lookup n (enc_fields mo fs vs) = None \/
+  exists t x, p t = true /\ wf t x = true /\ lookup n (enc_fields mo fs vs) = Some (enc mo t x).
+Proof.
+  intros fs vs n p Hw Hnd H. unfold opt_field_is in H. pose proof (lookup_field fs vs n Hw Hnd) as L.
+  destruct (field_ty_of fs n) as [[om t]|]; [|left; exact L].
+  destruct L as [x [Hx L]]. destruct (om && is_empty x); [left; exact L|].
+  right. exists t, x. repeat split; assumption.
+Qed.
+
+Lemma wf_list_inv : forall t v, (is_TTags t || is_TWayNodes t)%bool = true -> wf t v = true -> exists l, v = VList l.
+Proof.
+  intros t v Ht H. destruct t; try discriminate Ht; destruct v; try discriminate H; eexists; reflexivity.
+Qed.
+
+Lemma member_shape_ok : forall mfs v, member_schema_ok mfs = true -> wf (TStruct mfs) v = true ->
+  member_shape (enc mo (TStruct mfs) v) = true.
+Proof.
+  intros mfs v Hs Hw. unfold member_schema_ok in Hs. rewrite !andb_true_iff in Hs.
+  destruct Hs as [[[[Hnd Ht] Hr] Hro] Hn].
+  apply wf_struct_inv in Hw. destruct Hw as [vs [-> Hw]]. rewrite enc_struct. cbn [member_shape].
+  destruct (req_lookup mfs vs "type" _ Hw Hnd Ht) as [t1 [x1 [P1 [W1 L1]]]].
+  destruct (req_lookup mfs vs "ref" _ Hw Hnd Hr) as [t2 [x2 [P2 [W2 L2]]]].
+  destruct (req_lookup mfs vs "role" _ Hw Hnd Hro) as [t3 [x3 [P3 [W3 L3]]]].
+  rewrite L1, L2, L3.
+  destruct t1; try discriminate P1. destruct x1; try discriminate W1.
+  destruct t2; try discriminate P2. destruct x2; try discriminate W2.
+  destruct t3; try discriminate P3. destruct x3; try discriminate W3.
+  cbn [req_ok enc is_str is_int_num andb]. rewrite Z.eqb_refl. cbn [andb].
+  destruct (opt_lookup mfs vs "nodes" _ Hw Hnd Hn) as [L4|[t4 [x4 [P4 [W4 L4]]]]]; rewrite L4; [reflexivity|].
+  cbn [opt_ok]. destruct (wf_list_inv t4 x4) as [l ->]; [rewrite P4; apply orb_true_r|exact W4|].
+  destruct t4; try discriminate P4. apply waynodes_is_id_array.
+Qed.
+
+Theorem element_shape_ok : forall nm fs v, elem_schema_ok nm fs = true -> wf (TStruct fs) v = true ->
+  element_shape (enc mo (TStruct fs) v) = true.
+Proof.
+  intros nm fs v Hs Hw. unfold elem_schema_ok in Hs. rewrite !andb_true_iff in Hs.
+  destruct Hs as [[[[[Hnd Hty] Hmem] Htags] Hway] Hrel].
+  apply wf_struct_inv in Hw. destruct Hw as [vs [-> Hw]]. rewrite enc_struct. cbn [element_shape].
+  destruct (req_lookup fs vs "type" _ Hw Hnd Hty) as [t1 [x1 [P1 [W1 L1]]]].
+  destruct t1; try discriminate P1. apply String.eqb_eq in P1. subst name.
+  unfold type_of. rewrite L1. cbn [enc]. rewrite Hmem. cbn [andb].
+  assert (Tg : opt_ok (lookup "tags" (enc_fields mo fs vs)) tags_object = true).
+  { destruct (opt_lookup fs vs "tags" _ Hw Hnd Htags) as [L|[t [x [P [W L]]]]]; rewrite L; [reflexivity|].
+    cbn [opt_ok]. destruct (wf_list_inv t x) as [l ->]; [rewrite P; reflexivity|exact W|].
+    destruct t; try discriminate P. apply tags_is_object. }
+  rewrite Tg. cbn [andb].
+  assert (Wy : (if String.eqb nm "way" then req_ok (lookup "nodes" (enc_fields mo fs vs)) id_array else true) = true).
+  { destruct (String.eqb nm "way"); [|reflexivity].
+    destruct (req_lookup fs vs "nodes" _ Hw Hnd Hway) as [t [x [P [W L]]]]. rewrite L. cbn [req_ok].
+    destruct (wf_list_inv t x) as [l ->]; [rewrite P; apply orb_true_r|exact W|].
+    destruct t; try discriminate P. apply waynodes_is_id_array. }
+  rewrite Wy. cbn [andb].
+  destruct (String.eqb nm "relation"); [|reflexivity].
+  destruct (req_lookup fs vs "members" _ Hw Hnd Hrel) as [t [x [P [W L]]]]. rewrite L. cbn [req_ok].
+  destruct t; try discriminate P. destruct t; try discriminate P. cbn [is_members] in P.
+  destruct x; try discriminate W. cbn [enc members_array]. cbn [wf] in W.
+  apply forallb_forall. intros j Hj. apply in_map_iff in Hj. destruct Hj as [m [<- Hm]].
+  apply member_shape_ok; [exact P|]. rewrite forallb_forall in W. apply W. exact Hm.
+Qed.
+
+Lemma generated_elem_schemas_ok :
+  elem_schema_ok "node" f_Node && elem_schema_ok "way" f_Way && elem_schema_ok "relation" f_Relation
+  && elem_schema_ok "changeset" f_Changeset && elem_schema_ok "note" f_Note && elem_schema_ok "user" f_User = true.
+Proof. vm_compute. reflexivity. Qed.
+
+Lemma kind_shape : forall k v, wf (ktype k) v = true -> element_shape (enc mo (ktype k) v) = true.
+Proof.
+  intros k v H. pose proof generated_elem_schemas_ok as G. rewrite !andb_true_iff in G.
+  destruct G as [[[[[G0 G1] G2] G3] G4] G5].
+  do 6 (destruct k as [|k]; [eapply element_shape_ok; [eassumption|exact H]|]).
+  eapply element_shape_ok; [exact G5|exact H].
+Qed.
+
+Lemma bounds_shape : forall b, wf t_Bounds b = true ->
+  element_shape (enc mo t_jsonBoundsElement (bounds_element b)) = true.
+Proof.
+  intros b H. unfold t_Bounds in H. apply wf_struct_inv in H. destruct H as [vs [-> Hw]].
+  unfold f_Bounds in Hw.
+  destruct vs as [|a vs]; [discriminate Hw|]. destruct vs as [|b0 vs]; [simpl in Hw; rewrite andb_false_r in Hw; discriminate|].
+  destruct vs as [|c vs]; [simpl in Hw; rewrite !andb_false_r in Hw; discriminate|].
+  destruct vs as [|d vs]; [simpl in Hw; rewrite !andb_false_r in Hw; discriminate|].
+  destruct vs as [|e vs]; [|simpl in Hw; rewrite !andb_false_r in Hw; discriminate].
+  simpl in Hw. rewrite !andb_true_iff in Hw. destruct Hw as [Ha [Hb [Hc [Hd _]]]].
+  destruct a; try discriminate Ha. destruct b0; try discriminate Hb.
+  destruct c; try discriminate Hc. destruct d; try discriminate Hd.
+  vm_compute. reflexivity.
+Qed.
+
+Lemma forallb_map_shape : forall k l, forallb (wf (ktype k)) l = true ->
+  forallb element_shape (map (enc mo (ktype k)) l) = true.
+Proof.
+  intros k l H. apply forallb_forall. intros j Hj. apply in_map_iff in Hj. destruct Hj as [v [<- Hv]].
+  apply kind_shape. rewrite forallb_forall in H. apply H. exact Hv.
+Qed.
+
+Theorem json_shape : forall o, wf_osm o = true -> osmjson_shape (osm_marshal mo o) = true.
+Proof.
+  intros o H. apply wf_osm_all in H. destruct H as [Hb Hk].
+  destruct (elements_is_array mo o) as [kv [E L]]. rewrite E. cbn [osmjson_shape]. rewrite L.
+  unfold objects. rewrite !forallb_app.
+  pose proof (forallb_map_shape 0 _ (Hk 0%nat)) as S0. pose proof (forallb_map_shape 1 _ (Hk 1%nat)) as S1.
+  pose proof (forallb_map_shape 2 _ (Hk 2%nat)) as S2. pose proof (forallb_map_shape 3 _ (Hk 3%nat)) as S3.
+  pose proof (forallb_map_shape 4 _ (Hk 4%nat)) as S4. pose proof (forallb_map_shape 5 _ (Hk 5%nat)) as S5.
+  cbn [ktype kget] in S0, S1, S2, S3, S4, S5. rewrite S0, S1, S2, S3, S4, S5.
+  rewrite !andb_true_r. destruct (o_bounds o) as [b|]; [|reflexivity].
+  cbn [forallb]. rewrite (bounds_shape b Hb). reflexivity.
+Qed.
+End Lookup.
